@@ -74,6 +74,7 @@ type Config struct {
 	Seed          int64
 	Deadline      time.Time
 	Trace         bool
+	UnwindViolation bool // exceeding the call-depth bound is reported as a violation (label unbounded-recursion)
 	Preemptions   int // 0: Options.Preemptions
 	ReplayInputs  []ReplayVal // non-nil: concrete re-execution of one input vector (no symbolic inputs)
 }
@@ -472,6 +473,11 @@ func (e *Engine) runPath(fn *ssa.Function, it workItem, solver *Solver) {
 	switch outcome {
 	case "target-panic", "target-runtime-panic":
 		e.recordFinding(r, "uncaught-panic", "", r.model, detail)
+	case "unwind":
+		if e.cfg.UnwindViolation {
+			// runaway recursion (natively: stack exhaustion, which kills the process)
+			e.recordFinding(r, "unbounded-recursion", "", r.model, detail)
+		}
 	case "deadlock":
 		// every goroutine blocked and the harness not finished: a lost wake-up
 		e.recordFinding(r, "deadlock", "", r.model, detail)
@@ -510,7 +516,7 @@ func (e *Engine) runPath(fn *ssa.Function, it workItem, solver *Solver) {
 			if len(res.EngineErrors) < 20 {
 				res.EngineErrors = append(res.EngineErrors, outcome+": "+detail)
 			}
-		} else if outcome == "step-budget" || outcome == "unwind" {
+		} else if outcome == "step-budget" || (outcome == "unwind" && !e.cfg.UnwindViolation) {
 			res.Inconclusive++
 			if len(res.InconclusiveNotes) < 20 {
 				res.InconclusiveNotes = append(res.InconclusiveNotes, outcome+": "+detail)
